@@ -252,7 +252,7 @@ def partition_sweep(run, tier, seed):
         if o.get("machinery"):
             raise tlc.TLCError(o["machinery"])
         for sig, what, case in o["fails"]:
-            run.fail("C16:" + sig, what, case)
+            lc.fail_or_gap(run, "C16:" + sig, what, case, "partition-sweep")
         texts.update(o["texts"])
         for c in o["cases"]:
             if "skip" in c:
@@ -368,7 +368,7 @@ def main(tier, seed):
     for x in res:
         cls = "%s:nw%d:%s" % (x["kid"], x["nw"], "poll" if x["to"] else "nolimit")
         if x["error"]:
-            run.fail("C16:exception:vproc:%s" % cls, x["error"], {"actions": x.get("actions"), "text": x["text"]})
+            lc.fail_or_gap(run, "C16:exception:vproc:%s" % cls, x["error"], {"actions": x.get("actions"), "text": x["text"]}, "vproc")
             continue
         if x["divergence"]:
             run.divergence("replay", {"class": cls, "divergence": x["divergence"], "actions": x.get("actions")})
@@ -401,7 +401,7 @@ def main(tier, seed):
             else:
                 raise tlc.TLCError(o["machinery"])
         for sig, what, case in o["fails"]:
-            run.fail("C16:" + sig, what, case)
+            lc.fail_or_gap(run, "C16:" + sig, what, case, "real")
         cases += o["cases"]
         meta.update(o["meta"])
         for c in o["cases"]:
